@@ -784,14 +784,14 @@ func run(c *lib.Ctx) {
 	c.Assume("the key set does not change while it is paged (the statement is about a fixed set)",
 		"values are unique per (layer,key), which lets the value-only encoding be mapped back to the key that the next request continues from",
 		"ListHelper.PrefixScan / IteratorCallback / the count==1&&direction==ListSeek special case are not paged listings and are not judged")
-	n := c.N(300, 12000)
+	n := c.N(300, 30000)
 	maxN := 25
 	if !c.Quick() {
 		maxN = 60
 	}
 	var mu sync.Mutex
 	minimisedShapes := map[string]bool{}
-	lib.Parallel(n, 8, func(i int) {
+	lib.Parallel(n, 12, func(i int) {
 		if c.Skip(i) {
 			return
 		}
